@@ -20,12 +20,13 @@ inductive Err where
   | protection    -- ProtectionError / RuntimeError from protect/unprotect
   | client        -- DataResultError, ActionError, HLSError, DlmsClientException
   | range         -- value outside what the encoder accepts (OverflowError/ValueError on build)
+  | parse         -- hdlc HdlcParsingError / MissingHdlcFlags (turned into NEED_DATA by the connection)
   deriving DecidableEq, Repr, Inhabited
 
 def Err.name : Err → String
   | .decode => "decode" | .protocol => "protocol" | .preEstablished => "preEstablished"
   | .auth => "auth" | .replay => "replay" | .protection => "protection"
-  | .client => "client" | .range => "range"
+  | .client => "client" | .range => "range" | .parse => "parse"
 
 deriving instance DecidableEq for Except
 
